@@ -285,6 +285,9 @@ def plan(tier, seed):
                for i in range(len(model.big_shapes()))]
     chunks.append({'kind': 'cli'})
     chunks.append({'kind': 'clipipe'})
+    for n, u in ((2, 1), (3, 1), (4, 1)):
+        for c in sweep.shape_chunks([(n, u)], per_chunk=8, maxp=1):
+            chunks.append(dict(c, kind='depthprobe'))
     n6 = len(sweep.base_shapes(6, tier == 'quick', None))
     step = 25 if tier == 'quick' else 86
     chunks += [{'kind': 'punct6', 'lo': lo, 'hi': min(n6, lo + step), 'cont': tier == 'quick'} for lo in range(0, n6, step)]
@@ -305,6 +308,7 @@ def plan(tier, seed):
         'assumptions': ['driver differential (vt/clipipe.py): four structural pipelines with --params, with and without --split, must write what the named functions give when applied by the harness in the given order',
                         'beyond the bound: BFS (depth %d / %d) also from 8 fixed 5-7-token hierarchies with three blocks or interleaved gaps and from the 11-13-token size probes' % ((3, 2) if tier == 'quick' else (4, 3)),
                         'punctuation probes: every %s hierarchy over 6 tokens x every choice of 4 punctuation positions x words from {\", (}: root_attach, then each of the three punctuation re-attachments, step invariants on each (single steps, no BFS)' % ('continuous' if tier == 'quick' else ''),
+                        'depth probes: %d fixed pipelines of 6-9 steps (beyond the depth bound; collapsing before and un-collapsing after a split, two rounds of split and raising, binarization inside a collapse / uncollapse pair) run step by step on live objects from every initial tree with n <= 4, u <= 1, p <= 1' % len(DEPTH_PROBES),
                         'canonical form is a sound state abstraction (DESIGN.md §3.4)',
                         'live paths: every state is also reached on LIVE objects along the path by which it was first discovered (no rebuild between steps; initial objects rotate over API-built / reversed child lists / export reader / TIGER-XML reader / written once by the export writer) and the step invariants are evaluated on every live transition - one live transition per state, counted in extra.live_transitions',
                         'head marks count as present only if no restructuring happened since (prerequisite reading)',
@@ -462,6 +466,53 @@ def run_punct6(chunk, res):
             res.violation(kind, prog[-1], {'init': mt.to_json(), 'program': prog, 'flags': []},
                           '%s after program %s from %s' % (detail, prog, model.mt_str(mt.root, mt.toks)), '%s: %s' % (prog[-1], kind))
         res.outcome(tuple(outcome))
+    res.states += 1
+
+
+# depth probes: long pipelines beyond the depth bound of the search, run step by step on live objects (all five
+# provenances) from every initial tree of the n <= 4 pool, step invariants on every step
+DEPTH_PROBES = [
+    ['collapse', 'root_attach', 'negra_mark_heads', 'boyd_split', 'uncollapse', 'raising'],
+    ['root_attach', 'negra_mark_heads', 'boyd_split', 'raising', 'punctuation_root', 'root_attach', 'negra_mark_heads', 'boyd_split', 'raising'],
+    ['add_topnode', 'root_attach', 'punctuation_verylow', 'mark_heads_negra', 'binarize', 'collapse', 'uncollapse'],
+    ['root_attach', 'punctuation_symetrify', 'negra_mark_heads', 'boyd_split', 'raising', 'negra_mark_heads', 'binarize_bare', 'collapse'],
+    ['collapse', 'uncollapse', 'collapse', 'root_attach', 'mark_heads_ptb', 'boyd_split', 'raising', 'uncollapse'],
+]
+
+
+def run_depth_probes(chunk, res):
+    inits = [m for i, m in enumerate(initial_trees(chunk)) if i % chunk.get('parts', 1) == chunk.get('part', 0)]
+    for i, mt in enumerate(inits):
+        for program in DEPTH_PROBES:
+            res.evals += 1
+            res.nontrivial += 1
+            prov = LIVE_PROVENANCE[(i + len(program)) % len(LIVE_PROVENANCE)]
+            try:
+                t = build_any(mt, prov)
+            except Exception:
+                prov, t = None, build(mt)
+            done = []
+            for op in program:
+                fname, params = OPS[op]
+                pre = pre_summary(t)
+                if pre['bare']:
+                    if op != 'uncollapse':
+                        break
+                res.transitions += 1
+                try:
+                    r = getattr(transform, fname)(t, **params)
+                    probs = check_step(pre, op, r)
+                except Exception as e:
+                    probs = [('exception', '%s: %s' % (type(e).__name__, e))]
+                done.append(op)
+                if probs:
+                    for kind, detail in probs:
+                        res.violation(kind, op, {'init': mt.to_json(), 'program': list(done), 'live': prov, 'flags': []},
+                                      '%s after program %s applied step by step to the same objects, from %s (provenance %s)'
+                                      % (detail, done, model.mt_str(mt.root, mt.toks), prov or 'api'), '%s on live objects: %s' % (op, kind))
+                    break
+                t = r
+            res.outcome((mt.key(), tuple(done)))
     res.states += 1
 
 
@@ -631,6 +682,10 @@ def run_chunk(chunk):
                         res.violation(v['kind'], v['where'], v['case'], v['detail'], v['what'])
         res.states += 1
         res.sample({'cli': 'treetools transform SRC DEST --trans %s [--split 1#_rest]' % ' '.join(CLI_PROGRAMS[0])})
+        return res
+    if chunk.get('kind') == 'depthprobe':
+        with quiet():
+            run_depth_probes(chunk, res)
         return res
     if chunk.get('kind') == 'punct6':
         with quiet():
